@@ -219,10 +219,22 @@ class Autoscaler(AutoscalerBase):
             adder = meta['total_adder']
             scaler = meta['total_scaler']
 
-            lower_data[s] = self._scale_bound(
+            lower = self._scale_bound(
                 meta.get('lower', -INF_BOUND), adder, scaler, size, is_lower=True)
-            upper_data[s] = self._scale_bound(
+            upper = self._scale_bound(
                 meta.get('upper', INF_BOUND), adder, scaler, size, is_lower=False)
+
+            neg = np.asarray(scaler) < 0 if scaler is not None else False
+            if np.any(neg) and (np.ndim(neg) == 0 or neg.size == lower.size):
+                neg = np.broadcast_to(np.ravel(neg) if np.ndim(neg) else neg, lower.shape)
+                # A negative scaler reverses the ordering, so the image of the upper bound
+                # bounds the scaled quantity from below and vice versa.
+                new_lower = np.where(neg, np.where(upper >= INF_BOUND, -INF_BOUND, upper), lower)
+                upper = np.where(neg, np.where(lower <= -INF_BOUND, INF_BOUND, lower), upper)
+                lower = new_lower
+
+            lower_data[s] = lower
+            upper_data[s] = upper
 
             if voi_type == 'constraint':
                 eq = meta.get('equals')
